@@ -256,7 +256,7 @@ class Sim:
     WALL_TIMEOUT = 60.0   # seconds the controller waits for a running thread to yield
 
     def __init__(self, policy, stalls=(), interrupts=(), max_decisions=2_000_000,
-                 max_time=1e9, record=True, spin_limit=1000):
+                 max_time=1e9, record=True, spin_limit=1000, steps_after_fault=None):
         self.policy = policy
         self.stalls = list(stalls)
         self.interrupts = list(interrupts)
@@ -264,6 +264,7 @@ class Sim:
         self.max_time = max_time
         self.record_on = record
         self.spin_limit = spin_limit
+        self.steps_after_fault = steps_after_fault
 
         self.ctl = _thread.allocate_lock()
         self.ctl.acquire()
@@ -518,6 +519,10 @@ class Sim:
                 if self.outcome == 'wall_hang':
                     return
             if self.decisions >= self.max_decisions:
+                self.outcome = 'step_budget'
+                return
+            if self.steps_after_fault is not None and \
+                    self.thread_steps - self.thread_steps_at_last_fault > self.steps_after_fault:
                 self.outcome = 'step_budget'
                 return
             if self.now > self.max_time:
